@@ -323,6 +323,7 @@ PROPS["C19"] = {
 
 PROPS["C08"] = {
     "race": True,
+    "search_on_broken": True,
     "lean_modules": ["BurrowVerif.Props.C08"],
     "props_files": ["BurrowVerif/Props/C08.lean"],
     "anchors": ["core/internal/storage/inmemory.go", "core/internal/storage/coordinator.go"],
